@@ -222,6 +222,94 @@ theorem C10_command_register_split_regression :
       = [.register ⟨none, [110], [108]⟩ 7] := by
   decide
 
+/-! ### a final frame with a zero-length body is decoded (nothing has to follow it) -/
+
+/-- Split-insensitivity with nothing behind the last frame: the last message — whatever it is, in particular one
+whose body is empty — is delivered by the read that brings its last byte, and the decoder is left empty. -/
+theorem C10_final_frame_decoded {α : Type} {D : Dec α} {enc : α → List Nat} {ok : α → Prop}
+    (S : SplitInsensitive D enc ok) (hne : ∀ m, ok m → enc m ≠ []) (ms : List α) (hok : ∀ m ∈ ms, ok m) (e : α)
+    (he : ok e) (chunks : List (List Nat)) (hc : chunks.flatten = encodeAll enc (ms ++ [e])) :
+    (run D chunks).items = ms ++ [e] ∧ (run D chunks).status = .more ∧
+      D.view (run D chunks).s ++ (run D chunks).buf = [] :=
+  S (ms ++ [e]) (by intro m hm; rcases List.mem_append.mp hm with h | h; exact hok m h; simp at h; subst h; exact he)
+    [] ⟨e, enc e, he, hne e he, rfl⟩ chunks (by simpa using hc)
+
+/-- **Every codec family decodes a final frame whose body / key / value is EMPTY**, under every chunking, after any
+admissible messages: bytes body `[]`, map `update [] []` / `remove []`, lane `command` / `event` / `syncEvent` with an
+empty body, store init / response, downlink operation, routed `command` / `event` with an empty body, ad hoc
+`addressed` / `registered` with an empty body. (The 9-byte "tag + zero length" frame of the seeded mutant r3m1 is
+the typed sibling of these; the typed decoders are exercised by the harness with `None` bodies in last position.) -/
+theorem C10_empty_final_frame_decoded :
+    (∀ ms, (∀ m ∈ ms, okBytes m) → ∀ c, c.flatten = encodeAll encWlb (ms ++ [[]]) →
+      (run (Dec.ofParser wlb) c).items = ms ++ [[]]) ∧
+    (∀ ms, (∀ m ∈ ms, okMapOp m) → ∀ c, c.flatten = encodeAll encMapOp (ms ++ [.update [] []]) →
+      (run (Dec.ofParser rawMapOp) c).items = ms ++ [.update [] []]) ∧
+    (∀ ms, (∀ m ∈ ms, okMapMsg m) → ∀ c, c.flatten = encodeAll encMapMsg (ms ++ [.op (.remove [])]) →
+      (run (Dec.ofParser rawMapMsg) c).items = ms ++ [.op (.remove [])]) ∧
+    (∀ ms, (∀ m ∈ ms, okLaneReq okBytes m) → ∀ c,
+      c.flatten = encodeAll (encLaneReq encWlb) (ms ++ [.command []]) →
+      (run (laneRequest wlb) c).items = ms ++ [.command []]) ∧
+    (∀ ms, (∀ m ∈ ms, okLaneResp okBytes m) → ∀ c,
+      c.flatten = encodeAll (encLaneResp encWlb) (ms ++ [.event []]) →
+      (run (laneResponse wlb) c).items = ms ++ [.event []]) ∧
+    (∀ ms, (∀ m ∈ ms, okLaneResp okMapOp m) → ∀ id, id.length = 16 → ∀ c,
+      c.flatten = encodeAll (encLaneResp encMapOp) (ms ++ [.syncEvent id (.update [] [])]) →
+      (run (laneResponse rawMapOp) c).items = ms ++ [.syncEvent id (.update [] [])]) ∧
+    (∀ ms, (∀ m ∈ ms, okStoreInit okBytes m) → ∀ c,
+      c.flatten = encodeAll (encStoreInit encWlb) (ms ++ [.command []]) →
+      (run (storeInit wlb) c).items = ms ++ [.command []]) ∧
+    (∀ ms, (∀ m ∈ ms, okBytes m) → ∀ c, c.flatten = encodeAll (encStoreResp encWlb) (ms ++ [[]]) →
+      (run (storeResponse wlb) c).items = ms ++ [[]]) ∧
+    (∀ ms, (∀ m ∈ ms, okBytes m) → ∀ c, c.flatten = encodeAll encWlb (ms ++ [[]]) →
+      (run (Dec.ofParser downlinkOp) c).items = ms ++ [[]]) ∧
+    (∀ ms, (∀ m ∈ ms, okReqMsg m) → ∀ e, okReqMsg e → e.env = .command [] → ∀ c,
+      c.flatten = encodeAll encReqMsg (ms ++ [e]) → (run (Dec.ofParser rawRequest) c).items = ms ++ [e]) ∧
+    (∀ ms, (∀ m ∈ ms, okRespMsg m) → ∀ e, okRespMsg e → e.env = .event [] → ∀ c,
+      c.flatten = encodeAll encRespMsg (ms ++ [e]) → (run (Dec.ofParser rawResponse) c).items = ms ++ [e]) ∧
+    (∀ ms, (∀ m ∈ ms, okCmd m) → ∀ a ow, OkCAddr a → ∀ c,
+      c.flatten = encodeAll encCmd (ms ++ [.addressed a [] ow]) →
+      (run rawCommand c).items = ms ++ [.addressed a [] ow]) ∧
+    (∀ ms, (∀ m ∈ ms, okCmd m) → ∀ t ow, t < 65536 → ∀ c,
+      c.flatten = encodeAll encCmd (ms ++ [.registered t [] ow]) →
+      (run rawCommand c).items = ms ++ [.registered t [] ow]) := by
+  have eb : okBytes [] := by simp [okBytes]
+  refine ⟨?_, ?_, ?_, ?_, ?_, ?_, ?_, ?_, ?_, ?_, ?_, ?_, ?_⟩
+  · intro ms h c hc
+    exact (C10_final_frame_decoded C10_wlb_split_insensitive wlb_lawful.enc_ne ms h [] eb c hc).1
+  · intro ms h c hc
+    exact (C10_final_frame_decoded C10_mapop_split_insensitive rawMapOp_lawful.enc_ne ms h _
+      (by simp [okMapOp]) c hc).1
+  · intro ms h c hc
+    exact (C10_final_frame_decoded C10_mapmsg_split_insensitive rawMapMsg_lawful.enc_ne ms h _
+      (by simp [okMapMsg, okMapOp]) c hc).1
+  · intro ms h c hc
+    exact (C10_final_frame_decoded C10_lane_request_value_split_insensitive
+      (laneRequest_lawful wlb_lawful).enc_ne ms h _ (by simpa [okLaneReq] using eb) c hc).1
+  · intro ms h c hc
+    exact (C10_final_frame_decoded C10_lane_response_value_split_insensitive
+      (laneResponse_lawful wlb_lawful).enc_ne ms h _ (by simpa [okLaneResp] using eb) c hc).1
+  · intro ms h id hid c hc
+    exact (C10_final_frame_decoded C10_lane_response_map_split_insensitive
+      (laneResponse_lawful rawMapOp_lawful).enc_ne ms h _ (by simp [okLaneResp, okMapOp, hid]) c hc).1
+  · intro ms h c hc
+    exact (C10_final_frame_decoded C10_store_init_value_split_insensitive
+      (storeInit_lawful wlb_lawful).enc_ne ms h _ (by simpa [okStoreInit] using eb) c hc).1
+  · intro ms h c hc
+    exact (C10_final_frame_decoded C10_store_response_value_split_insensitive
+      (storeResponse_lawful wlb_lawful).enc_ne ms h [] eb c hc).1
+  · intro ms h c hc
+    exact (C10_final_frame_decoded C10_downlink_operation_split_insensitive downlinkOp_lawful.enc_ne ms h [] eb c hc).1
+  · intro ms h e he _ c hc
+    exact (C10_final_frame_decoded C10_raw_request_split_insensitive rawRequest_lawful.enc_ne ms h e he c hc).1
+  · intro ms h e he _ c hc
+    exact (C10_final_frame_decoded C10_raw_response_split_insensitive rawResponse_lawful.enc_ne ms h e he c hc).1
+  · intro ms h a ow A c hc
+    exact (C10_final_frame_decoded C10_command_split_insensitive rawCommand_lawful.enc_ne ms h (.addressed a [] ow)
+      (show OkCAddr a ∧ okBytes [] from ⟨A, eb⟩) c hc).1
+  · intro ms h t ow ht c hc
+    exact (C10_final_frame_decoded C10_command_split_insensitive rawCommand_lawful.enc_ne ms h (.registered t [] ow)
+      (show t < 65536 ∧ okBytes [] from ⟨ht, eb⟩) c hc).1
+
 /-! ### the length-delimited Recon body decoder resynchronises (typed codecs) -/
 
 /-- **`WithLenRecognizerDecoder` never loses the frame boundary**: whatever the inner Recon decoder answers on the
@@ -303,6 +391,13 @@ example : (run (Dec.ofParser rawResponse)
     = [⟨be 16 7, [110], [108], .event [5]⟩] := by decide
 
 example : okBytes [1, 2, 3] := by simp [okBytes]
+
+/-- a final lane event with an empty body (tag + zero length = 9 bytes), last byte in its own read; and the typed
+sibling: the abstract length-delimited decoder reports a value for a zero-length body as soon as the length is in -/
+example : (run (laneResponse wlb) [[3, 0, 0, 0, 0, 0, 0, 0, 1, 7, 3, 0, 0, 0, 0, 0, 0, 0], [0]]).items
+    = [.event [7], .event []] := by decide
+example : Discard.drive (β := Nat) (fun _ sl eof => (0, if sl.isEmpty && eof then .some 0 else .none))
+      ⟨.header, 0, []⟩ [[0, 0, 0, 0, 0, 0, 0], [0]] = some (.item 0, [], []) := by decide
 
 /-- an inner decoder that fails on its first call having consumed one byte, body of 5 bytes cut after 2: the error
 comes out with the second read and the buffer is exactly the next frame's first byte -/
